@@ -96,7 +96,8 @@ fn render(items: &[Item]) -> (Vec<RFrame>, Vec<(bool, Vec<u8>)>, Vec<Vec<u8>>, b
     let mut frames = Vec::new();
     let mut msgs = Vec::new();
     let mut pings = Vec::new();
-    let key = |k: u32, i: usize| -> [u8; 4] { (k.wrapping_mul(2654435761).wrapping_add(i as u32 * 40503)).to_be_bytes() };
+    // arbitrary keys, among them the all-zero key (one item in seven)
+    let key = |k: u32, i: usize| -> [u8; 4] { if k % 7 == 0 { [0; 4] } else { (k.wrapping_mul(2654435761).wrapping_add(i as u32 * 40503)).to_be_bytes() } };
     for (ii, it) in items.iter().enumerate() {
         match it.kind.as_str() {
             "ping" | "pong" => {
